@@ -591,16 +591,24 @@ func (s *Scanner) scanRune() string {
 func (s *Scanner) scanSharpComment() string {
 	// '#' opening already consumed
 	offs := s.offset - 1
+	hasCR := false
 
 	for {
 		ch := s.ch
 		if ch == '\n' || ch < 0 {
 			break
 		}
+		if ch == '\r' {
+			hasCR = true
+		}
 		s.next()
 	}
 
-	return string(s.src[offs:s.offset])
+	lit := s.src[offs:s.offset]
+	if hasCR {
+		lit = stripCR(lit)
+	}
+	return string(lit)
 }
 
 func (s *Scanner) scanString() string {
